@@ -289,7 +289,7 @@ fn corpus_read(ctx: &Ctx, subj: &dyn DynSubject, ty: &Ty, rep: &mut Report) {
                 break;
             }
         }
-        let pl = crate::faults::Placed::new(&file, 4096, 0);
+        let pl = crate::faults::Placed::new(&file, 16384, 0);
         match guard(|| subj.eps(pl.bytes()).map(|o| o.val)) {
             Ok(Ok(x)) if x == v => {}
             other => {
